@@ -417,6 +417,20 @@ func TestGrid(t *testing.T) {
 			}
 		}
 	}
+	// concurrent-streams class: with output: and no stderr: file, stdout and
+	// stderr are distinct writers sharing the log (and the stdout: file); a
+	// child that keeps both pipes full makes the two copy loops write at once.
+	for rep_ := 0; rep_ < 3; rep_++ {
+		for mask := 0; mask < 4; mask++ {
+			i++
+			if i%nsh != shard {
+				continue
+			}
+			s := StepCfg{Name: "a", Stdout: mask&1 != 0, Output: true, Script: mask&2 != 0, RetryLimit: -1, OutN: 100000, ErrN: 400000, Chunk: 64}
+			check(t, Case{Steps: []StepCfg{s}, PauseUS: 200, Done: rep_})
+			rep.Label("class:both-pipes-kept-full")
+		}
+	}
 	if shard == 0 {
 		rep.ExhaustiveSpace(fmt.Sprintf("16 {stdout,stderr,output,script} configs x retries 0..2 x {stdout,stderr,both} x sizes %v", gridSizes))
 	}
